@@ -25,7 +25,13 @@ def lflist(xs):
 
 PRE = '''import TracklibVerif.Gen.Geometry
 import TracklibVerif.Gen.ObsTime
+import TracklibVerif.Gen.SpatialIndex
+import TracklibVerif.Gen.Raster
 open TV TV.Py
+instance : IntCast Float := ⟨Float.ofInt⟩
+def fFloor (x : Float) : Int := (Float.floor x).toInt64.toInt
+def fTrunc (x : Float) : Int := x.toInt64.toInt
+
 def sf (x : Float) : String := if x.isNaN then "nan" else toString x.toBits
 def se : Err → String | .zerodiv => "err:zerodiv" | .index => "err:index" | .type => "err:type" | .unbound => "err:unbound"
 def r1 : M Float → String | .ok v => sf v | .error e => se e
@@ -33,6 +39,9 @@ def r2 : M (Float × Float) → String | .ok v => sf v.1 ++ " " ++ sf v.2 | .err
 def r3 : M (Float × Float × Float) → String | .ok v => sf v.1 ++ " " ++ sf v.2.1 ++ " " ++ sf v.2.2 | .error e => se e
 def rl : M (List Float) → String | .ok v => " ".intercalate (v.map sf) | .error e => se e
 def rb : M Bool → String | .ok v => toString v | .error e => se e
+def ro2 : M (Option (Float × Float)) → String | .ok none => "none" | .ok (some v) => sf v.1 ++ " " ++ sf v.2 | .error e => se e
+def roi : M (Option (Int × Int)) → String | .ok none => "none" | .ok (some v) => toString v.1 ++ " " ++ toString v.2 | .error e => se e
+def ri : M Int → String | .ok v => toString v | .error e => se e
 '''
 
 
@@ -54,6 +63,10 @@ def main():
     with contextlib.redirect_stdout(io.StringIO()):
         import tracklib.util.geometry as G
         from tracklib.core.obs_time import ObsTime
+        from tracklib.core.spatial_index import SpatialIndex
+        from tracklib.core.raster import Raster
+        from tracklib.core.obs_coords import ENUCoords
+    from types import SimpleNamespace as NS
     rng = random.Random(7)
     pool = [0.0, -0.0, 1.0, -1.0, 0.5, 2.0, 3.0, 10.0, 0.11, 1e-9, 1e9, 5.0, 7.25, float("inf"), float("nan")]
 
@@ -87,6 +100,26 @@ def main():
                       lambda six=six: G.triangle_area(*six), pf))
         tests.append(("isSegmentIntersects", "rb (Gen.Geometry.isSegmentIntersects %s %s)" % (lflist(seg), lflist(seg2)),
                       lambda seg=seg, seg2=seg2: G.isSegmentIntersects(seg, seg2), lambda v: "true" if v else "false"))
+        # methods: a bare namespace stands for `self` (only the declared attributes are read)
+        fin = lambda: rng.choice([0.0, 1.0, 2.5, 10.0, -3.0, 100.0, 0.25, float(rng.randint(-5, 20)), rng.uniform(-20, 120)])
+        xmin, ymin = fin(), fin()
+        xmax, ymax = xmin + abs(fin()), ymin + abs(fin())
+        dX, dY = rng.choice([0.0, 1.0, 0.5, 2.0, abs(fin())]), rng.choice([1.0, 0.5, 0.0, 3.0, abs(fin())])
+        cx = rng.choice([xmin, xmax, rng.uniform(xmin - 1, xmax + 1), xmin + dX * rng.randint(0, 5)])
+        cy = rng.choice([ymin, ymax, rng.uniform(ymin - 1, ymax + 1), ymin + dY * rng.randint(0, 5)])
+        si = NS(xmin=xmin, xmax=xmax, ymin=ymin, ymax=ymax, dX=dX, dY=dY)
+        tests.append(("SpatialIndex.__getCell", "ro2 (Gen.SpatialIndex.SpatialIndex_getCell %s)" % " ".join(lf(t) for t in (xmin, xmax, ymin, ymax, dX, dY, cx, cy)),
+                      lambda si=si, cx=cx, cy=cy: SpatialIndex._SpatialIndex__getCell(si, ENUCoords(cx, cy)),
+                      lambda v: "none" if v is None else pf(v[0]) + " " + pf(v[1])))
+        dist = abs(fin())
+        tests.append(("groundDistanceToUnits", "ri (Gen.SpatialIndex.SpatialIndex_groundDistanceToUnits fFloor %s)" % " ".join(lf(t) for t in (dX, dY, dist)),
+                      lambda si=si, dist=dist: SpatialIndex.groundDistanceToUnits(si, dist), str))
+        nrow, ncol = rng.randint(1, 6), rng.randint(1, 6)
+        ra = NS(xmin=xmin, xmax=xmax, ymin=ymin, ymax=ymax, resolution=(dX, dY), nrow=nrow, ncol=ncol)
+        tests.append(("Raster.getCell", "roi (Gen.Raster.Raster_getCell fFloor fTrunc %s (%s, %s) (%d) (%d) %s %s)" % (
+                      " ".join(lf(t) for t in (xmin, xmax, ymin, ymax)), lf(dX), lf(dY), nrow, ncol, lf(cx), lf(cy)),
+                      lambda ra=ra, cx=cx, cy=cy: Raster.getCell(ra, ENUCoords(cx, cy)),
+                      lambda v: "none" if v is None else "%d %d" % (v[0], v[1])))
         yr = rng.choice([rng.randint(-50, 2500), rng.choice([1900, 2000, 2100, 1600, 4, 100, 400, 0])])
         tests.append(("isLeapYear", "rb (Gen.ObsTime.isLeapYear (%d))" % yr, lambda yr=yr: ObsTime.isLeapYear(yr), lambda v: "true" if v else "false"))
     src = PRE + "".join("#eval IO.println (%s)\n" % t[1] for t in tests)
